@@ -168,6 +168,27 @@ class C02(DiffProperty):
                         ops += ["recv"]
             ops += ["drain"]
             cases.append(" ".join([str(v), str(wcap), str(woff), str(rcap), str(roff)] + ops))
+        # long messages: more than 256 bytes decoded when the ZPE decoder runs out of scratch space
+        # (mpt_queue_recv then has to move the decoded bytes in several chunks), several maximal blocks
+        nl = 600 if tier == "quick" else 20000
+        for i in range(nl):
+            v = i % 4
+            head = rng.choice([0, 10, 250, 257, 300, 520, 600])
+            m = [rng.randrange(1, 256) for _ in range(head)]
+            for _ in range(rng.choice([0, 3, 12, 40])):
+                m += [rng.randrange(1, 256)] * rng.choice([0, 1, 1, 2]) + [0, 0]
+            m += [rng.randrange(1, 256) for _ in range(rng.choice([0, 1, 5, 230]))]
+            wcap = 2 * len(m) + rng.choice([16, 64, 300])
+            rcap = rng.choice([16, 64, len(m) + 8, 2 * len(m) + 64])
+            ops = ["send", hx([0x68, 0x69]), "send", hx(m)]
+            k = rng.random()
+            if k < 0.4:
+                ops += ["wire", "1000000"]
+            elif k < 0.7:
+                ops += ["wire", str(rng.choice([1, 7, 100, 255, 256, 257]))] * 3
+            ops += ["recv"] * rng.choice([0, 1, 3])
+            ops += ["send", hx([0x77]), "drain"]
+            cases.append(" ".join([str(v), str(wcap), str(rng.randrange(0, wcap)), str(rcap), str(rng.randrange(0, rcap))] + ops))
         return cases
 
 PROP = C02()
